@@ -331,6 +331,30 @@ def fam_huge_literals(tier, rng):
 FAMILIES.append(fam_huge_literals)
 
 
+def fam_single_edge(tier, rng):
+    """whole numbers that a SINGLE cannot hold exactly and that round UP across the end of a whole-number type when they are
+    put into one (2147483647 -> 2147483648!, 2147483600, their negatives, 16777217): from the SINGLE (and from a DOUBLE holding
+    the same value) through every route into LONG and INTEGER - an Overflow, never a LONG holding 2147483648"""
+    out = []
+    for v in (2147483647, 2147483600, 2147483583, -2147483647, 16777217, 32767, 2147483520):
+        for st in ("S", "D"):
+            for tt in ("L", "I"):
+                for route in ROUTES:
+                    def src_fn(b, pre, v=v, st=st):
+                        pre.append(b.let(var("SRC", "S"), num(v)))
+                        if st == "D":
+                            pre.append(b.let(var("SRD", "D"), var("SRC", "S")))
+                            return var("SRD", "D")
+                        return var("SRC", "S")
+                    p = route_prog(route, tt, src_fn)
+                    if p is not None:
+                        out.append({"fam": "single-edge:%s/%d/%s>%s" % (route, v, st, tt), "prog": p})
+    return out
+
+
+FAMILIES.append(fam_single_edge)
+
+
 def cases(tier, seed):
     rng = random.Random(seed)
     out = []
